@@ -17,6 +17,7 @@ import AcryoVerif.Model.Cache
 import AcryoVerif.Model.Pca
 import AcryoVerif.Model.Pipe
 import AcryoVerif.Model.Chunks
+import AcryoVerif.Model.Sim
 
 /-! Dispatch of hand-written model operations for the line-protocol driver. -/
 namespace Model
@@ -504,6 +505,20 @@ def opPipeC (a : Array Rat) : String :=
   | some (e, []) => Canon.canon ((buildC primP primC e).f ((List.range 8).map fun i => ((i : Nat) : Rat) - 3) a[0]!)
   | _ => "err:parse"
 
+/-- `sim1d scale N nmol (p n v1 … vn)*`: `TomogramSimulator._simulate` along one axis, grid-coincident poses -/
+def opSim1d (a : Array Rat) : String :=
+  let scale := a[0]!
+  let N := (i a 1).toNat
+  let nmol := (i a 2).toNat
+  let rec mols : Nat → List Rat → List (Rat × List Rat)
+    | 0, _ => []
+    | k + 1, l =>
+      let n := (l.getD 1 0).floor.toNat
+      (l.headD 0, (l.drop 2).take n) :: mols k (l.drop (2 + n))
+  match simulate1d scale N (mols nmol (a.toList.drop 3)) with
+  | .ok r => " ".intercalate (r.map Canon.canon)
+  | .error e => s!"error {e}"
+
 /-- `pick3 scale d0 d1 d2 x0 x1 x2 n0 cs0… n1 cs1… n2 cs2…`: how many blocks keep the position
 (product over the axes) and where the keeping block reports it. -/
 def opPick3 (a : Array Rat) : String :=
@@ -575,6 +590,7 @@ def dispatch (name : String) (a : Array Rat) : Option String :=
   | "pipeP" => some (opPipeP a)
   | "pipeC" => some (opPipeC a)
   | "pick3" => some (opPick3 a)
+  | "sim1d" => some (opSim1d a)
   | _ => none
 
 end Model
